@@ -309,6 +309,18 @@ pub fn scenarios(quick: bool) -> Vec<(Scn, usize)> {
     // a restarted worker panics again, then serves a task
     v.push((Scn { n: 1, ops: vec![Op::Start, Op::Exec(Task::Panic), Op::Exec(Task::Panic), Op::Exec(Task::Ok), Op::Stop] }, 3));
     v.push((Scn { n: 1, ops: vec![Op::Start, Op::Exec(Task::Panic), Op::Exec(Task::Panic), Op::Exec(Task::Ok)] }, 3));
+    // a task of the first generation panics around / after a restart (old recovery thread still alive)
+    for with_stop in [true, false] {
+        let mut ops = vec![Op::Start, Op::Exec(Task::Panic), Op::Stop, Op::Start, Op::Exec(Task::Ok)];
+        if with_stop {
+            ops.push(Op::Stop);
+        }
+        v.push((Scn { n: 1, ops: ops.clone() }, if quick { 2 } else { 3 }));
+        if !quick {
+            v.push((Scn { n: 2, ops }, 1));
+        }
+    }
+    v.push((Scn { n: 1, ops: vec![Op::Start, Op::Exec(Task::Ok), Op::Exec(Task::Panic), Op::Stop, Op::Start, Op::Exec(Task::Panic), Op::Exec(Task::Ok)] }, if quick { 1 } else { 2 }));
     // stop, then start again and keep working
     v.push((Scn { n: 1, ops: vec![Op::Start, Op::Exec(Task::Ok), Op::Stop, Op::Start, Op::Exec(Task::Ok), Op::Stop] }, 2));
     v.push((Scn { n: 2, ops: vec![Op::Start, Op::Exec(Task::Panic), Op::Stop, Op::Start, Op::Exec(Task::Ok), Op::Stop] }, if quick { 0 } else { 2 }));
